@@ -117,7 +117,17 @@ def run_batch(ctx, rng, ej, tj, equipment, network, model, batch_no):
                         nodes = [rng.choice(pool)]
                         hops = [rng.choice(['STRICT', 'LOOSE'])]
         i = str(rid)
-        reqs.append(S.request(i, a, z, nodes=nodes, hops=hops, trx_mode='mode 1'))
+        raw_nodes, raw_hops = list(nodes), list(hops)
+        if rng.random() < (0.3 if nodes else 0.08):
+            # LOOSE entries naming nothing usable (a typo, another transceiver) are skipped with a warning: the entries
+            # that follow keep their meaning, STRICT included
+            for _ in range(rng.choice([1, 2, 2, 3])):
+                k = rng.randint(0, len(raw_nodes))
+                bad = rng.choice(['no such element', 'nowhere', rng.choice([t for t in trx if t not in (a, z)] or ['x'])])
+                raw_nodes.insert(k, bad)
+                raw_hops.insert(k, 'LOOSE')
+            ctx.count('members_with_unusable_loose_names')
+        reqs.append(S.request(i, a, z, nodes=raw_nodes, hops=raw_hops, trx_mode='mode 1'))
         meta[i] = {'src': a, 'dst': z, 'nodes': nodes, 'hops': hops}
         rid += 1
         return i
@@ -240,8 +250,21 @@ def run_identical(ctx, rng, equipment, network, model):
     trx = sorted(model.roadm_of)
     a, z = rng.sample(trx, 2)
     n = rng.randint(3, 5)
-    ids = [chr(ord('a') + i) for i in range(n)]
-    reqs = [S.request(i, a, z, trx_mode='mode 1') for i in ids]
+    n_other = rng.choice([0, 0, 1, 2])
+    if rng.random() < 0.5:
+        ids = [chr(ord('a') + i) for i in range(n + n_other)]
+    else:
+        # ids that contain one another as text ('1' in '11 | 12'): the joined id of an aggregate is a label, not a set
+        ids = rng.sample(['1', '11', '12', '2', '21', '112', 'r1', 'r11', 'r10'], n + n_other)
+        ctx.count('identical_batches_with_nested_ids')
+    reqs = [S.request(i, a, z, trx_mode='mode 1') for i in ids[:n]]
+    pairs = [(x, y) for x in trx for y in trx if x != y and (x, y) != (a, z)]
+    for i in ids[n:]:
+        # requests that are not identical to the others (other end points) and take part in the groups as well
+        x, y = rng.choice(pairs)
+        reqs.append(S.request(i, x, y, trx_mode='mode 1'))
+    rng.shuffle(reqs)
+    n = len(ids)
     groups = []
     for _ in range(rng.randint(2, 3)):
         g = rng.sample(ids, rng.randint(2, min(3, n)))
